@@ -29,6 +29,28 @@ Rank2(x) == [t \in 1..Len(x) |-> 2 * Cardinality({s \in 1..Len(x) : x[s] < x[t]}
 GaussMIDefined(x, y) == /\ Var(x) > 0 /\ Var(y) > 0
                         /\ Var(x) * Var(y) <= 4096 /\ Var(x) * Var(y) - Cov(x, y) * Cov(x, y) >= 1
 GaussMI6(x, y) == (Ln6(Var(x) * Var(y)) - Ln6(Var(x) * Var(y) - Cov(x, y) * Cov(x, y))) \div 2
+\* ---- mutual information with aequi-quantile bins (CouplingAnalysis, estimator "binning") ----------------
+\* the lower bin edges are every ceil(M/bins)-th value of the sorted series; the symbol of a sample is the
+\* number of edges not above it, minus one; I = sum p ln p over the joint cells minus the marginal ones,
+\* with counts n:  M I = sum_xy n ln n - sum_x n ln n - sum_y n ln n + M ln M     (M samples)
+OrderStat(x, p) == CHOOSE v \in {x[t] : t \in 1..Len(x)} :
+                      /\ Cardinality({t \in 1..Len(x) : x[t] < v}) <= p
+                      /\ p < Cardinality({t \in 1..Len(x) : x[t] <= v})
+BinStep(M, bins) == (M + bins - 1) \div bins
+NEdges(M, bins) == (M + BinStep(M, bins) - 1) \div BinStep(M, bins)
+QSym(x, bins, t) == Cardinality({k \in 1..NEdges(Len(x), bins) :
+                                   OrderStat(x, (k - 1) * BinStep(Len(x), bins)) <= x[t]}) - 1
+NLnN(n) == IF n = 0 THEN 0 ELSE n * Ln6(n)
+QuantileMINumerator(x, y, bins) ==
+  LET M == Len(x)
+      sx == [t \in 1..M |-> QSym(x, bins, t)]  sy == [t \in 1..M |-> QSym(y, bins, t)]
+      syms == 0..(NEdges(M, bins) - 1)
+      cxy(a, b) == Cardinality({t \in 1..M : sx[t] = a /\ sy[t] = b})
+      cx(a) == Cardinality({t \in 1..M : sx[t] = a})
+      cy(b) == Cardinality({t \in 1..M : sy[t] = b})
+  IN SumN(LAMBDA a : SumN(LAMBDA b : NLnN(cxy(a, b)), 0, NEdges(M, bins) - 1), 0, NEdges(M, bins) - 1)
+     - SumN(LAMBDA a : NLnN(cx(a)), 0, NEdges(M, bins) - 1) - SumN(LAMBDA b : NLnN(cy(b)), 0, NEdges(M, bins) - 1)
+     + NLnN(M)
 \* ---- partial correlation of three series (given the third): -P_ab / sqrt(P_aa P_bb), P the inverse of
 \* the covariance matrix, i.e. with the cofactors K of the (integer) matrix of Cov values:
 \*   r_ab.c ^ 2 = K_ab^2 / (K_aa K_bb),   sign = -sign(K_ab)          (K_ab = -(C_ab C_cc - C_ac C_bc))
